@@ -170,7 +170,7 @@ def crash_job(job):
     inside = 0 < idx < nlog - 1
     cutclass = "" if ekind != "commit" else (":empty" if cut == 0 else (":all-but-one-byte" if size and cut == size - 1 else ":prefix"))
     rec.case(key=key, nontrivial=inside, classes=["crash", f"step:{kind}", f"effect:{where}{cutclass}", f"workers={W}", "after-earlier-restart" if restarted else "first-lifetime"]
-             + (["second-crash-in-recovery"] if second else []),
+             + (["second-crash-while-the-restart-is-prepared" if isinstance(second, str) else "second-crash-in-recovery"] if second else []),
              sample={"scenario": {k: sc["spec"][k] for k in ("n", "moves", "workers", "delete_old", "delete_old_all", "seed")}, "step_kind": kind, "target_step": target,
                      "crash_before_effect": idx, "effect": where, "bytes_on_disk": cut if ekind == "commit" else None} if len(rec.samples) < 2 and inside else None)
     d, _ = prepare(sc)
@@ -195,7 +195,11 @@ def crash_job(job):
         N2 = sc["N"] + W + 3
         if second is not None:
             try:
-                run_plain(d, seg_of(sc, N2, restart=True, fault={"target": 1, "crash_at": second, "cut": 0, "phase": "treat"}))
+                if isinstance(second, str):  # "setup:<k>:<cut>": die while the restart is being prepared (repair of the data file)
+                    _, k2, cut2 = second.split(":")
+                    run_plain(d, seg_of(sc, N2, restart=True, fault={"target": 0, "crash_at": int(k2), "cut": int(cut2), "phase": "setup"}))
+                else:
+                    run_plain(d, seg_of(sc, N2, restart=True, fault={"target": 1, "crash_at": second, "cut": 0, "phase": "treat"}))
             except isolate.ChildCrashed:
                 pass
             except Exception:  # noqa: BLE001
@@ -263,7 +267,7 @@ def run(ctx):
         "Scenarios (generated lattice configurations: 3-5 interfaces, sh/wf, 1-3 workers, delete_old off/on/all, zero-swap probability, "
         "completion policy; a third of them already restarted once after a kill with jobs in flight) are run to find one target step of each "
         "kind {sh accept, wf accept, reject, zero-swap accept, zero-swap reject, accept that deletes an old path}. A dry run numbers the main "
-        "process' file-system effects inside treat_output of that step (open-for-write, content commit, move, remove, rmdir, makedirs); then for "
+        "process' file-system effects inside treat_output of that step (open-for-write, content commit, move, remove, rmdir, every single mkdir); then for "
         "EVERY effect index the scenario is re-run and the process is killed (os._exit) immediately before it; for a content commit the file is left "
         "with 0 bytes, 1 byte, half, and all-but-one byte. Thorough adds a second crash inside the recovery run. Oracle on the surviving tree in "
         "fresh forks: the restart starts (no exception, not refused), every needed path loads with non-zero weight, the recorded in-flight jobs are "
@@ -286,6 +290,13 @@ def run(ctx):
         if k % every == 0:
             for second in ((2,) if ctx.quick else (0, 2, 5)):
                 extra.append(tuple(list(j) + [second]))
+    # second crash while the restart is being prepared (setup_config repairs the data file): for first crashes that fall between
+    # the data-file row and the replacement of restart.toml, die again before effect k of the setup phase
+    for j in list(jobs):
+        sc, kind, target, restarted, idx, ekind, rel, cut, size, nlog = j[1:11]
+        if fclass(rel) in ("restart.toml.tmp", "restart.toml") and (ekind != "commit" or cut == 0):
+            for k2, cut2 in (((1, 1),) if ctx.quick else ((0, 0), (1, 0), (1, 1), (2, 0))):
+                extra.append(tuple(list(j) + [f"setup:{k2}:{cut2}"]))
     jobs += extra
     ctx.note("crash_runs", len(jobs))
     ctx.note("scenarios", len(scen))
